@@ -7,7 +7,7 @@ rf = json.load(open(sys.argv[1]))
 race = rf.get("case", {}).get("harness") == "race"
 b, binp, _ = vbuild.ensure_build(race=race)
 env = dict(os.environ)
-env.update({"VERIF_MODE": "replay", "VERIF_REPLAY": os.path.abspath(sys.argv[1]), "GOMAXPROCS": "1", "GODEBUG": "asyncpreemptoff=1"})
+env.update({"VERIF_MODE": "replay", "VERIF_REPLAY": os.path.abspath(sys.argv[1]), "GOMAXPROCS": "1", "GODEBUG": "asyncpreemptoff=1,randautoseed=0,randseednop=0"})
 out = "/var/tmp/verif-replay-%d.json" % os.getpid()
 env["VERIF_OUT"] = out
 subprocess.run([binp, "-test.run", "^TestSim$", "-test.timeout", "0"], env=env, stdout=subprocess.DEVNULL)
